@@ -119,7 +119,7 @@ SCHED_ASSUME = ["simulators always answer; replies API-compliant except where a 
                 "theorems are about the transition system whose actions are the atomic blocks between awaits; asyncio only chooses which enabled action fires next"]
 
 PROPERTIES["C01"] = {"run": _sched(_mon("C01")), "assumptions": SCHED_ASSUME}
-PROPERTIES["C02"] = {"run": _sched(_mon("C02")), "assumptions": SCHED_ASSUME + ["the liveness half (every demanded step is executed) is not a theorem yet: monitor + correspondence only"]}
+PROPERTIES["C02"] = {"run": _sched(_mon("C02")), "assumptions": SCHED_ASSUME + ["completeness is proved for runs that end (complete_at_end); that runs end is proved only as deadlock freedom for flat configurations (C05), otherwise monitor + correspondence"]}
 PROPERTIES["C05"] = {"run": _sched(_mon("C05"), extra=_replay_d7("C05")), "assumptions": SCHED_ASSUME + ["deadlock freedom is a theorem for flat (group-less) configurations (hypotheses evaluated per scenario by the driver: wfx); for grouped configurations and for termination: monitor + correspondence only"]}
 def _c07_extra(o, driver, rng):
     """Diamond scenarios (several trigger paths of different delay) + the ancestor-table correspondence."""
